@@ -569,7 +569,14 @@ def mon_c10(ex, info, col):
                         if abs(d) > TOL:
                             out.append(V("C10", "C10:non-automatic-task-progressed-at-project-absence-step", ex, {"t": t, "task": tn, "decrease": d}))
                     else:
-                        want = info.unit(tn) if (ex.opts.get("auto_abs") and sa["tasks"][tn][0] == S.T_WORKING) else 0.0
+                        # an automatic task that can run (READY or WORKING after the update, work left) progresses at an
+                        # absence step exactly when the flag is set; component-bound automatic tasks need a placement
+                        # first and are only claimed once they are WORKING
+                        us = su["tasks"][tn]
+                        runnable = us[0] == S.T_WORKING or (us[0] == S.T_READY and tn not in info.task_comp)
+                        if us[1] < EPS and us[0] == S.T_WORKING:
+                            runnable = sa["tasks"][tn][0] == S.T_WORKING  # blocked by a finish dependency: no claim beyond the state
+                        want = info.unit(tn) if (ex.opts.get("auto_abs") and runnable) else 0.0
                         col.checks["c10.auto"] += 1
                         if abs(d - want) > TOL:
                             sig = "C10:automatic-task-progressed-at-absence-step-without-flag" if want == 0.0 else "C10:automatic-task-did-not-progress-at-absence-step-with-flag"
